@@ -15,6 +15,7 @@ import (
 	"github.com/modernizing/coca/pkg/application/evaluate/evaluator"
 	"github.com/modernizing/coca/pkg/application/git"
 	"github.com/modernizing/coca/pkg/application/tbs"
+	"github.com/modernizing/coca/pkg/application/visual"
 	"github.com/modernizing/coca/pkg/domain/api_domain"
 	"github.com/modernizing/coca/pkg/domain/bs_domain"
 	"pgregory.net/rapid"
@@ -32,6 +33,13 @@ type CliCase struct {
 	Others  []jgen.File  `json:"others"`
 	History ggen.History `json:"history"`
 	Reps    int          `json:"reps,omitempty"`
+	// option variants (zero values = the command lines of the first version of this check)
+	Top        int  `json:"top,omitempty"`        // `coca count -t N`
+	GitSize    int  `json:"gitSize,omitempty"`    // `coca git ... -f -s N`: every table cut at N rows
+	ApiVariant int  `json:"apiVariant,omitempty"` // 0 `-f -c -s`, 1 `-f -c -r com.acme.`, 2 `-f -c -s -a <prefix>`
+	Lookup     bool `json:"lookup,omitempty"`     // `coca call -l`
+	TbsSort    bool `json:"tbsSort,omitempty"`    // `coca tbs -s`
+	GitOnly    bool `json:"gitOnly,omitempty"`    // pinned cases: only the `coca git` commands
 }
 
 func genCli(t *rapid.T) CliCase {
@@ -49,7 +57,16 @@ func genCli(t *rapid.T) CliCase {
 	perm := rapid.Permutation(pool).Draw(t, "others")
 	c.Others = perm[:n]
 	sort.Slice(c.Others, func(i, j int) bool { return c.Others[i].Path < c.Others[j].Path })
-	c.History = ggen.Gen(t, ggen.Options{MaxCommits: 5, MaxPaths: 4, PlainSubjects: true})
+	if rapid.IntRange(0, 2).Draw(t, "bulkHistory") == 2 {
+		c.History = genBulkHistory(t)
+	} else {
+		c.History = ggen.Gen(t, ggen.Options{MaxCommits: 5, MaxPaths: 4, PlainSubjects: true})
+	}
+	c.Top = rapid.IntRange(0, 3).Draw(t, "countTop")
+	c.GitSize = rapid.IntRange(0, 3).Draw(t, "gitSize")
+	c.ApiVariant = rapid.IntRange(0, 2).Draw(t, "apiVariant")
+	c.Lookup = rapid.Bool().Draw(t, "callLookup")
+	c.TbsSort = rapid.Bool().Draw(t, "tbsSort")
 	return c
 }
 
@@ -260,9 +277,25 @@ func oneCliRun(root string, c CliCase) []report {
 				}
 				return canonSmellGroups(groups)
 			})
+			if len(c.Java.Ignore) > 0 {
+				// the plain list with some kinds ignored (same report file: one run after the other)
+				r.coca(root, nil, "bs", "-p", "src", "-x", joinIgnore(c.Java.Ignore))
+				r.jsonFile("bs -x/bs.json", "bs.json", func(data string) string {
+					var list []bs_domain.BadSmellModel
+					if err := json.Unmarshal([]byte(data), &list); err != nil {
+						return "<unexpected bs.json>\n" + data
+					}
+					return multiset(smellItems(list))
+				})
+			}
 		},
 		func(r *cliRun) {
-			out := r.coca(root, nil, "count")
+			args := []string{"count"}
+			if c.Top > 0 {
+				// the first N rows of the table: a collection that must not depend on the run
+				args = append(args, "-t", fmt.Sprint(c.Top))
+			}
+			out := r.coca(root, nil, args...)
 			r.add("count/stdout", out, rowsSortedBy(tableRows(out), 0))
 		},
 		func(r *cliRun) {
@@ -289,8 +322,31 @@ func oneCliRun(root string, c CliCase) []report {
 			r.jsonFile("cloc --by-directory/cloc.csv", "cloc.csv", canonCsvRows)
 		},
 		func(r *cliRun) {
-			out := r.coca(root, nil, "api", "-p", "src", "-f", "-c", "-s")
-			r.add("api -c -s/stdout", out, rowsSortedBy(tableRows(out), 0))
+			args := []string{"api", "-p", "src", "-f", "-c", "-s"}
+			switch c.ApiVariant {
+			case 1:
+				args = []string{"api", "-p", "src", "-f", "-c", "-r", "com.acme."}
+			case 2:
+				args = append(args, "-a", "/h")
+			}
+			out := r.coca(root, nil, args...)
+			if c.ApiVariant == 1 {
+				r.add("api -c -s/stdout", out, rowsAsMultiset(tableRows(out))) // not sorted: a collection
+			} else {
+				r.add("api -c -s/stdout", out, rowsSortedBy(tableRows(out), 0))
+			}
+			r.jsonFile("api/api.csv", "api.csv", func(data string) string {
+				lines := strings.Split(strings.TrimSpace(data), "\n")
+				if c.ApiVariant == 1 || len(lines) < 2 {
+					return multiset(lines)
+				}
+				var items, keys []string
+				for _, l := range lines[1:] {
+					items = append(items, l)
+					keys = append(keys, strings.SplitN(l, ",", 2)[0])
+				}
+				return lines[0] + "\n" + sortedRuns(items, keys)
+			})
 			r.jsonFile("api/apis.json", "apis.json", func(data string) string {
 				var list []api_domain.RestAPI
 				if err := json.Unmarshal([]byte(data), &list); err != nil {
@@ -305,17 +361,57 @@ func oneCliRun(root string, c CliCase) []report {
 			r.jsonFile("api/api.dot", "api.dot", func(data string) string { return mustEdges("api graph", data, "digraph G {") })
 		},
 		func(r *cliRun) {
-			r.coca(root, nil, "arch")
+			r.coca(root, nil, "arch", "-v")
 			r.jsonFile("arch/arch.dot", "arch.dot", canonDotText)
+			r.jsonFile("arch -v/visual.json", "visual.json", func(data string) string {
+				var vis visual.DData
+				if err := json.Unmarshal([]byte(data), &vis); err != nil {
+					return "<unexpected visual.json>\n" + data
+				}
+				var items []string
+				for _, n := range vis.Nodes {
+					items = append(items, fmt.Sprintf("node %s group=%d", n.ID, n.Group))
+				}
+				for _, l := range vis.Links {
+					items = append(items, fmt.Sprintf("link %s -> %s value=%d", l.Source, l.Target, l.Value))
+				}
+				return multiset(items)
+			})
+			// merged by package, only the nodes of the shop (same report file: one run after the other)
+			r.coca(root, nil, "arch", "-P", "-x", "com.acme")
+			r.jsonFile("arch -P -x/arch.dot", "arch.dot", canonDotText)
+			r.coca(root, nil, "arch", "-H")
+			r.jsonFile("arch -H/arch.dot", "arch.dot", canonDotText)
 		},
 	}
 	if withTests {
 		groups = append(groups, func(r *cliRun) {
-			out := r.coca(root, nil, "tbs", "-p", "src")
+			args := []string{"tbs", "-p", "src"}
+			if c.TbsSort {
+				args = append(args, "-s")
+			}
+			out := r.coca(root, nil, args...)
 			r.add("tbs/stdout", out, rowsAsMultiset(tableRows(out)))
 			r.jsonFile("tbs/tbs.json", "tbs.json", func(data string) string {
 				var list []tbs.TestBadSmell
-				if err := json.Unmarshal([]byte(data), &list); err != nil {
+				if c.TbsSort {
+					// -s: grouped by type (a JSON object); the groups are collections
+					var groups map[string][]tbs.TestBadSmell
+					if err := json.Unmarshal([]byte(data), &groups); err != nil {
+						return "<unexpected tbs.json>\n" + data
+					}
+					var kinds []string
+					for k := range groups {
+						kinds = append(kinds, k)
+					}
+					sort.Strings(kinds)
+					for _, k := range kinds {
+						for _, s := range groups[k] {
+							s.Type = "[" + k + "] " + s.Type
+							list = append(list, s)
+						}
+					}
+				} else if err := json.Unmarshal([]byte(data), &list); err != nil {
 					return "<unexpected tbs.json>\n" + data
 				}
 				var items []string
@@ -330,7 +426,11 @@ func oneCliRun(root string, c CliCase) []report {
 	if len(c.Java.Roots) > 0 {
 		rootMethod := c.Java.Roots[0]
 		groups = append(groups, func(r *cliRun) {
-			r.coca(root, nil, "call", "-c", rootMethod)
+			if c.Lookup {
+				r.coca(root, nil, "call", "-c", rootMethod, "-l")
+			} else {
+				r.coca(root, nil, "call", "-c", rootMethod)
+			}
 			r.jsonFile("call/call.dot", "call.dot", func(data string) string {
 				return mustEdges("call graph", data, "digraph G {", "rankdir = LR;")
 			})
@@ -374,13 +474,18 @@ func lastTableBody(out string) [][]string {
 }
 
 // gitCliRun: `coca git` in the repository of the case.
-func gitCliRun(repo *ggen.Repo) []report {
+func gitCliRun(repo *ggen.Repo, c CliCase) []report {
 	r := &cliRun{root: repo.Dir}
 	env := ggen.HermeticEnv(repo.Home)
 	_ = os.RemoveAll(filepath.Join(repo.Dir, "coca_reporter"))
 	defer os.RemoveAll(filepath.Join(repo.Dir, "coca_reporter"))
 	// -m prints the change-log sections, -t the team table
-	out := r.coca(repo.Dir, env, "git", "-m", "-t")
+	// -f -s N cuts every table at N rows: the rows shown are a collection that must not depend on the run
+	var cut []string
+	if c.GitSize > 0 {
+		cut = []string{"-f", "-s", fmt.Sprint(c.GitSize)}
+	}
+	out := r.coca(repo.Dir, env, append([]string{"git", "-m", "-t"}, cut...)...)
 	text := out
 	if i := strings.Index(text, "\n"); i >= 0 {
 		text = text[i+1:] // the exit= line
@@ -396,11 +501,12 @@ func gitCliRun(repo *ggen.Repo) []report {
 	truncated := false
 	for _, sec := range strings.Split(text, "=====================\n") {
 		if strings.Count(sec, "\n") >= 12 {
-			truncated = true // ten lines kept out of more: the cut among tied lines is free
+			truncated = true // ten lines kept out of more
 		}
 	}
 	if truncated {
-		r.add("git -m/stdout", "", "")
+		// the ten lines kept of a longer section: a collection that must not depend on the run
+		r.add("git -m/stdout", text, "cut sections\n"+multiset(strings.Split(strings.TrimSpace(text), "\n")))
 	} else {
 		r.add("git -m/stdout", text, canonChangeLogText(text))
 	}
@@ -414,7 +520,7 @@ func gitCliRun(repo *ggen.Repo) []report {
 		return canonCommits(msgs)
 	})
 	// -b prints four fixed rows, -o appends the author rows to the same table
-	out = r.coca(repo.Dir, env, "git", "-b", "-o")
+	out = r.coca(repo.Dir, env, append([]string{"git", "-b", "-o"}, cut...)...)
 	rows = lastTableBody(out)
 	var basic []string
 	var authors [][]string
@@ -461,7 +567,7 @@ func checkCli(c CliCase) pbt.Verdict {
 	var wg sync.WaitGroup
 	var harnessPanic string
 	var mu sync.Mutex
-	for i := 0; i < k; i++ {
+	for i := 0; i < k && !c.GitOnly; i++ {
 		wg.Add(1)
 		go func(i int) {
 			defer wg.Done()
@@ -479,7 +585,7 @@ func checkCli(c CliCase) pbt.Verdict {
 	return repeat("cli", k, func(rep int) []report {
 		out := runs[rep]
 		if repo != nil {
-			out = append(out, gitCliRun(repo)...)
+			out = append(out, gitCliRun(repo, c)...)
 		}
 		return out
 	})
